@@ -616,6 +616,14 @@ class World:
             f2 = abs(float(f2))
         except Exception:
             f2 = float('nan')
+        if any(s_['conic'] is not None and abs(1 + s_['conic']) < 1e-6
+               for s_ in m.surfs):
+            # optiland's conic intersection solves a quadratic whose leading
+            # coefficient vanishes for a paraboloid; for near-axial rays the
+            # root is then rounding noise of up to 50 %, re-rolled by an ulp
+            # in the vertex position
+            self.probe('scaled_twin_skipped_paraboloid')
+            return
         if not (1e-2 <= size <= 1e6 and
                 all(1e-4 * size <= r <= 1e6 * size for r in radii) and
                 math.isfinite(f2) and 1e-4 * size <= f2 <= 1e6 * size):
@@ -795,6 +803,11 @@ class World:
                             f'the one it was loaded from at {where}')
         # (b) same behaviour: rays and paraxial quantities
         J = None
+        if not exact and any(
+                s_.get('conic') is not None and abs(1 + s_['conic']) < 1e-6
+                for s_ in self.model.surfs):
+            self.probe('ckpt_inexact_paraboloid_skipped')
+            return
         if not exact:
             # inexact mode (a thickness pickup is re-applied on load and may
             # move a vertex by an ulp): the response of every compared
